@@ -377,3 +377,313 @@ Print Assumptions c10_step_ok_model_nolimit.
 Print Assumptions c10_err_exit_not_inv_refuted.
 Print Assumptions c10_p1_hyps_satisfiable.
 Print Assumptions c10_restart_reachable.
+
+(* ====================================================================================== *)
+(* C10 (socket half) - arbitrary datagrams into the socket dispatcher.                     *)
+(* The recv arm of run_once is UtpMessage::deserialize followed by on_recv; the            *)
+(* composition is Sock/DispHostile.v: parse_raw = msg_deserialize reduced to what the      *)
+(* dispatcher looks at, handle_recv_raw = parse then on_recv, rop = op alphabet with raw   *)
+(* datagrams (RopRaw pushes addr bytes | RopOp dop), rrun / rtrace = runs over rop lists.  *)
+(* d_inv (Sock/Dispatcher_Proofs.v) is the dispatcher invariant; it holds of every state   *)
+(* reachable from dstate_new (c13_reachable_inv), so it is not an assumption.              *)
+From Utp Require Import Sock.Dispatcher Sock.Dispatcher_Proofs Sock.DispObs Sock.DispObs_Proofs
+  Sock.DispFresh_Proofs Sock.DispSlots_Proofs Sock.DispPending_Proofs Sock.DispWiring_Proofs
+  Sock.DispRelease_Proofs Sock.DispHostile Sock.DispHostile_Proofs Wire.Header_Proofs.
+
+(* ---- (1) total: no byte list panics the parser ... *)
+Theorem c10_disp_parse_total : forall bs : list Z, parse_raw bs <> RpPanic.
+Proof. exact parse_raw_no_panic. Qed.
+
+(* ... garbage is exactly what C11 says the parser rejects (no header, or payload rule broken);
+   e.g. anything shorter than 20 bytes or with a version nibble other than 1 ... *)
+Theorem c10_disp_garbage_spec : forall bs, bytes_okb bs = true ->
+  (parse_raw bs = RpGarbage <->
+   match deserialize bs with
+   | None => True
+   | Some (h, n) => ~ (skipn (Z.to_nat n) bs <> [] <-> h_type h = ST_DATA)
+   end).
+Proof. exact parse_raw_garbage_spec. Qed.
+
+Theorem c10_disp_short_is_garbage : forall bs, Zlength bs < 20 -> parse_raw bs = RpGarbage.
+Proof. exact short_is_garbage. Qed.
+
+Theorem c10_disp_bad_version_is_garbage : forall bs, nth 0 bs 0 mod 16 <> 1 -> parse_raw bs = RpGarbage.
+Proof. exact bad_version_is_garbage. Qed.
+
+(* ... what does parse hands the dispatcher the header's own fields, the connection id in u16 range *)
+Theorem c10_disp_parsed_fields : forall bs m, bytes_okb bs = true -> parse_raw bs = RpMsg m ->
+  20 <= Zlength bs /\
+  dm_conn m = of_be16 (nth 2 bs 0) (nth 3 bs 0) /\ 0 <= dm_conn m < 65536 /\
+  dm_seq m = of_be16 (nth 16 bs 0) (nth 17 bs 0) /\
+  dm_ack m = of_be16 (nth 18 bs 0) (nth 19 bs 0) /\
+  type_to_number (dm_type m) = nth 0 bs 0 / 16.
+Proof. exact parse_raw_msg_fields. Qed.
+
+(* ... and "parse, then HandleRecv" on ANY byte list, ANY sender, ANY state satisfying the
+   invariant: never a panic outcome, the invariant and the limit are kept, and garbage changes
+   NOTHING (s' = s: no entry added or removed, no connecting slot, no SYN queued; e = [EvDropped]:
+   no reply, nothing forwarded) *)
+Theorem c10_disp_total : forall s addr bs,
+  d_inv s ->
+  exists s' e, handle_recv_raw s addr bs = RoOk s' e /\
+    d_inv s' /\ d_max_streams s' = d_max_streams s /\
+    (parse_raw bs = RpGarbage -> s' = s /\ e = [EvDropped]) /\
+    (forall m, parse_raw bs = RpMsg m -> on_recv s addr m = (s', e)).
+Proof. exact disp_total. Qed.
+
+(* the whole run_once: a garbage datagram leaves exactly the effect of cleanup_accept_queue and of
+   the accept() calls that arrived while parked, which happen whatever arm fires *)
+Theorem c10_disp_total_run_once : forall s pushes addr bs,
+  d_inv s ->
+  exists d s' e,
+    rop_dop (RopRaw pushes addr bs) = Some d /\ rstep s (RopRaw pushes addr bs) = Some (s', e) /\
+    dstep s d = (s', e) /\ d_inv s' /\ d_max_streams s' = d_max_streams s /\
+    (parse_raw bs = RpGarbage ->
+       d = DoRunOnce pushes (ArmRecv addr None) /\
+       let '(s1, e1) := cleanup_accept_queue s in
+       s' = fold_left push_acceptor pushes s1 /\ e = e1 ++ [EvDropped]).
+Proof. exact disp_total_run_once. Qed.
+
+(* ---- (2) isolation.  What each datagram does, exactly (recv_effect, Sock/DispHostile_Proofs.v):
+   key (addr, id) in the table and alive: forwarded, nothing else; in the table and dead: that
+   entry is removed; otherwise ST_SYN: syn_effect = exactly one of {one new entry (addr, id + 1)
+   handed to a live acceptor | ignored because that key is in use | this SYN appended to the
+   backlog | one reset carrying its sequence number, backlog full}; ST_STATE: ack_effect = nothing,
+   or the completion of the FIRST pending connect to addr whose SYN carried ack_nr (new entry
+   (addr, id) unless the connector is gone); DATA / FIN / RESET: nothing *)
+Theorem c10_disp_effect_exact : forall s addr m s' e,
+  d_inv s -> on_recv s addr m = (s', e) -> recv_effect s addr m s' e.
+Proof. exact on_recv_exact. Qed.
+
+(* the consequences, spelled out *)
+Theorem c10_disp_isolation : forall s addr m s' e,
+  d_inv s -> on_recv s addr m = (s', e) ->
+  let k := {| k_addr := addr; k_conn := dm_conn m |} in
+  (forall k0, In (EvForward k0) e -> k0 = k /\ e = [EvForward k] /\ s' = s) /\
+  (forall en, In en (d_streams s) -> se_key en <> k -> In en (d_streams s')) /\
+  (forall en, In en (d_streams s') -> In en (d_streams s) \/
+     (find_stream s k = None /\ d_streams s' = d_streams s ++ [en] /\ se_alive en = true /\
+      ~ In (se_key en) (keys (d_streams s)) /\
+      ((dm_type m = ST_SYN /\ se_key en = syn_key (syn_of addr m)) \/
+       (dm_type m = ST_STATE /\ se_key en = k)))) /\
+  (d_syns s' = d_syns s \/
+   (dm_type m = ST_SYN /\ find_stream s k = None /\ d_syns s' = d_syns s ++ [syn_of addr m] /\
+    d_streams s' = d_streams s /\ e = [])) /\
+  (forall a c q, In (EvSentRst a c q) e ->
+     dm_type m = ST_SYN /\ find_stream s k = None /\ e = [EvSentRst addr (dm_conn m) (dm_seq m)] /\
+     d_streams s' = d_streams s /\ d_syns s' = d_syns s) /\
+  (forall a c q, ~ In (EvSentSyn a c q) e) /\
+  (forall a, pending s' a = pending s a \/
+     (a = addr /\ dm_type m = ST_STATE /\ find_stream s k = None /\
+      exists c m1 m2, pending s a = m1 ++ c :: m2 /\ cn_seq c = dm_ack m /\ pending s' a = m1 ++ m2)) /\
+  d_control s' = d_control s /\ d_next_conn_id s' = d_next_conn_id s /\
+  d_max_streams s' = d_max_streams s /\ d_dead_connectors s' = d_dead_connectors s /\
+  d_dead_acceptors s' = d_dead_acceptors s.
+Proof. exact disp_isolation. Qed.
+
+(* the same for the whole run_once (cleanup first), in the terms of the extracted predicate *)
+Theorem c10_disp_isolation_run_once : forall s pushes addr om s' e,
+  d_inv s -> dstep s (DoRunOnce pushes (ArmRecv addr om)) = (s', e) ->
+  (forall k0, In k0 (fwd_keys e) -> is_own_key addr om k0 = true) /\
+  (length (fwd_keys e) <= 1)%nat /\
+  (forall en, In en (d_streams s) -> is_own_key addr om (se_key en) = false -> In en (d_streams s')) /\
+  (forall en, In en (d_streams s') ->
+     In (se_key en) (keys (d_streams s)) \/ (exists y, In y (d_syns s) /\ se_key en = syn_key y) \/
+     may_create addr om (se_key en) = true) /\
+  (exists n, (n <= length (d_syns s))%nat /\
+     (d_syns s' = skipn n (d_syns s) \/
+      exists m, om = Some m /\ dm_type m = ST_SYN /\ d_syns s' = skipn n (d_syns s) ++ [syn_of addr m])) /\
+  count_rst e <= 1 /\ (0 < count_rst e -> is_syn om = true) /\
+  d_control s' = d_control s.
+Proof. exact run_once_recv_facts. Qed.
+
+(* every step of every op list: an inbox receives a datagram only from its own peer address with
+   its own connection id *)
+Theorem c10_disp_forward_only_own : forall s o s' e k,
+  d_inv s -> dstep s o = (s', e) -> In (EvForward k) e ->
+  exists pushes m, o = DoRunOnce pushes (ArmRecv (k_addr k) (Some m)) /\ dm_conn m = k_conn k /\
+    exists en, In en (d_streams s') /\ se_key en = k /\ se_alive en = true.
+Proof. exact forward_only_own. Qed.
+
+(* ALL RAW OP LISTS: the table entry of a live connection (same object, alive) survives anything
+   that arrives and anything the other tasks do, except the drop of the accept future holding it *)
+Theorem c10_disp_live_connection_unaffected : forall ops s en,
+  d_inv s -> In en (d_streams s) -> se_alive en = true -> forallb no_accept_drop ops = true ->
+  exists s', rrun s ops = Some s' /\ d_inv s' /\ In en (d_streams s').
+Proof. exact live_connection_unaffected. Qed.
+
+(* ---- (3) bounded: ALL lists of raw datagrams and other ops run to the end (no panic) and the
+   dispatcher's own state stays within its static bounds *)
+Theorem c10_disp_bounded : forall max_streams random ops,
+  exists s, rrun (dstate_new max_streams random) ops = Some s /\ d_inv s /\
+    d_max_streams s = max_streams /\
+    NoDup (keys (d_streams s)) /\
+    Z.of_nat (length (d_streams s)) <= Z.max 0 max_streams /\
+    Z.of_nat (length (d_syns s)) <= 32 /\
+    Z.of_nat (length (d_chan s)) <= 32 /\
+    Z.of_nat (length (accq s)) <= 33 /\
+    (forall a, (length (pending s a) <= 4)%nat) /\
+    Forall (fun p => length (snd p) = 4%nat) (d_connecting s).
+Proof. exact disp_bounded. Qed.
+
+Theorem c10_disp_bounded_from : forall s ops,
+  d_inv s ->
+  exists s', rrun s ops = Some s' /\ d_inv s' /\ d_max_streams s' = d_max_streams s /\
+    NoDup (keys (d_streams s')) /\
+    Z.of_nat (length (d_streams s')) <= Z.max 0 (d_max_streams s) /\
+    Z.of_nat (length (d_syns s')) <= ACCEPT_QUEUE_MAX_SYNS /\
+    Z.of_nat (length (d_chan s')) <= ACCEPT_QUEUE_MAX_ACCEPTORS /\
+    Z.of_nat (length (accq s')) <= ACCEPT_QUEUE_MAX_ACCEPTORS + 1 /\
+    (forall a, (length (pending s' a) <= MAX_CONNECTING_PER_ADDR)%nat) /\
+    Forall (fun p => length (snd p) = MAX_CONNECTING_PER_ADDR) (d_connecting s').
+Proof. exact disp_bounded_from. Qed.
+
+(* a raw datagram never grows what only local calls may grow (the unbounded control channel, the
+   pending connects, the connection-id counter), never makes the dispatcher send a SYN and never
+   fails a connect *)
+Theorem c10_disp_raw_step_local_state : forall s pushes addr bs s' e,
+  d_inv s -> rstep s (RopRaw pushes addr bs) = Some (s', e) ->
+  d_control s' = d_control s /\ d_next_conn_id s' = d_next_conn_id s /\
+  d_dead_connectors s' = d_dead_connectors s /\
+  (forall a, (length (pending s' a) <= length (pending s a))%nat) /\
+  (forall a c q, ~ In (EvSentSyn a c q) e) /\ (forall t, ~ In (EvConnectErr t) e).
+Proof. exact raw_step_local_state. Qed.
+
+(* never wedged: after ANY raw op list a connect with a free slot is served (or refused by the
+   table limit only), and a live waiting acceptor is served by the next SYN *)
+Theorem c10_disp_not_wedged_connect : forall max_streams random ops,
+  exists s, rrun (dstate_new max_streams random) ops = Some s /\
+    forall pushes addr token r s' e,
+      d_control s = CtlConnect addr token :: r -> (length (pending s addr) < 4)%nat ->
+      dstep s (DoRunOnce pushes (ArmControl SynSent)) = (s', e) ->
+      (In (EvConnectErr token) e /\ d_results s' = d_results s ++ [(token, CrTooMany)] /\
+       forall a, pending s' a = pending s a) \/
+      (no_connect_err e /\ d_results s' = d_results s /\
+       exists cid q, In (EvSentSyn addr cid q) e /\
+         In {| cn_token := token; cn_seq := q |} (pending s' addr) /\
+         length (pending s' addr) = S (length (pending s addr)) /\
+         forall a, a <> addr -> pending s' a = pending s a).
+Proof. exact hostile_then_connect_served. Qed.
+
+Theorem c10_disp_not_wedged_accept : forall max_streams random ops,
+  exists s, rrun (dstate_new max_streams random) ops = Some s /\
+    forall pushes addr m dead a rest s' e,
+      d_syns s = [] -> dm_type m = ST_SYN ->
+      find_stream s {| k_addr := addr; k_conn := dm_conn m |} = None ->
+      serve_cond s (syn_of addr m) dead a rest ->
+      dstep s (DoRunOnce pushes (ArmRecv addr (Some m))) = (s', e) ->
+      e = [EvAccepted a (syn_key (syn_of addr m))] /\ d_syns s' = [] /\ exists ext, accq s' = rest ++ ext.
+Proof. exact hostile_then_accept_served. Qed.
+
+(* ---- the extracted predicates (Sock/DispHostile.v) hold of every model step and raw trace *)
+Theorem c10_disp_step_ok_every_step : forall s pushes addr om s' e,
+  d_inv s -> dstep s (DoRunOnce pushes (ArmRecv addr om)) = (s', e) ->
+  c10_disp_step_ok addr om (dstep_obs_of s e s') = true.
+Proof. exact c10_disp_step_ok_model. Qed.
+
+Theorem c10_disp_bounds_ok_every_state : forall s, d_inv s ->
+  c10_disp_bounds_ok (d_max_streams s) (dobs_of s) = true.
+Proof. exact c10_disp_bounds_ok_model. Qed.
+
+Theorem c10_disp_trace_ok_every_trace : forall max_streams random ops,
+  c10_disp_trace_ok max_streams (rtrace (dstate_new max_streams random) ops) = true /\
+  length (rtrace (dstate_new max_streams random) ops) = length ops.
+Proof. exact c10_disp_trace_ok_model. Qed.
+
+(* ---- boundaries (witnesses) and non-vacuity *)
+(* literally "changes no entry other than the one keyed (addr, id)" is false: a SYN with id c
+   creates (addr, c + 1) - by design; c10_disp_isolation is the true form *)
+Theorem c10_disp_isolation_literal_refuted :
+  exists s addr m s' e en,
+    d_inv s /\ on_recv s addr m = (s', e) /\
+    In en (d_streams s') /\ ~ In en (d_streams s) /\
+    se_key en <> {| k_addr := addr; k_conn := dm_conn m |}.
+Proof. exact isolation_literal_refuted. Qed.
+
+(* the SYN backlog is shared and has no expiry: 32 SYNs of one address, no accept() waiting, and
+   a legitimate peer's SYN is refused with a reset *)
+Theorem c10_disp_backlog_exhaustion_boundary :
+  exists s, rrun (dstate_new 128 [7]) hostile_syns = Some s /\
+    length (d_syns s) = 32%nat /\ d_streams s = [] /\
+    Forall (fun y => sy_addr y = 9) (d_syns s) /\
+    rstep s (RopRaw [] 5 (syn_bytes 50 1000)) = Some (s, [EvSentRst 5 50 1000]).
+Proof. exact backlog_exhaustion_boundary. Qed.
+
+Theorem c10_disp_parse_examples :
+  parse_raw (syn_bytes 50 1000) = RpMsg {| dm_type := ST_SYN; dm_conn := 50; dm_seq := 1000; dm_ack := 0 |} /\
+  parse_raw (data_bytes 51 1001) = RpMsg {| dm_type := ST_DATA; dm_conn := 51; dm_seq := 1001; dm_ack := 0 |} /\
+  parse_raw [] = RpGarbage /\
+  parse_raw (removelast (syn_bytes 50 1000)) = RpGarbage /\
+  parse_raw (66 :: tl (syn_bytes 50 1000)) = RpGarbage /\
+  parse_raw (81 :: tl (syn_bytes 50 1000)) = RpGarbage /\
+  parse_raw (removelast (data_bytes 51 1001)) = RpGarbage /\
+  parse_raw (syn_bytes 50 1000 ++ [7]) = RpGarbage /\
+  parse_raw (65 :: 1 :: skipn 2 (syn_bytes 50 1000) ++ [0; 200; 1]) = RpGarbage.
+Proof. exact parse_examples. Qed.
+
+Theorem c10_disp_hostile_trace_example :
+  let ops := [RopOp (DoPushAcceptor 1);
+              RopRaw [] 5 (syn_bytes 50 1000);
+              RopRaw [] 5 (data_bytes 51 1001);
+              RopRaw [] 6 (data_bytes 51 1001);
+              RopRaw [] 5 [1; 2; 3]] in
+  map (fun x => (so_fwd (snd x), ob_streams (so_post (snd x)))) (rtrace (dstate_new 128 [7; 100]) ops) =
+  [([], []);
+   ([], [({| k_addr := 5; k_conn := 51 |}, true)]);
+   ([{| k_addr := 5; k_conn := 51 |}], [({| k_addr := 5; k_conn := 51 |}, true)]);
+   ([], [({| k_addr := 5; k_conn := 51 |}, true)]);
+   ([], [({| k_addr := 5; k_conn := 51 |}, true)])].
+Proof. exact hostile_trace_example. Qed.
+
+Print Assumptions c10_disp_parse_total.
+Print Assumptions c10_disp_garbage_spec.
+Print Assumptions c10_disp_short_is_garbage.
+Print Assumptions c10_disp_bad_version_is_garbage.
+Print Assumptions c10_disp_parsed_fields.
+Print Assumptions c10_disp_total.
+Print Assumptions c10_disp_total_run_once.
+Print Assumptions c10_disp_effect_exact.
+Print Assumptions c10_disp_isolation.
+Print Assumptions c10_disp_isolation_run_once.
+Print Assumptions c10_disp_forward_only_own.
+Print Assumptions c10_disp_live_connection_unaffected.
+Print Assumptions c10_disp_bounded.
+Print Assumptions c10_disp_bounded_from.
+Print Assumptions c10_disp_raw_step_local_state.
+Print Assumptions c10_disp_not_wedged_connect.
+Print Assumptions c10_disp_not_wedged_accept.
+Print Assumptions c10_disp_step_ok_every_step.
+Print Assumptions c10_disp_bounds_ok_every_state.
+Print Assumptions c10_disp_trace_ok_every_trace.
+Print Assumptions c10_disp_isolation_literal_refuted.
+Print Assumptions c10_disp_backlog_exhaustion_boundary.
+Print Assumptions c10_disp_parse_examples.
+Print Assumptions c10_disp_hostile_trace_example.
+
+(* the per-address connecting map (a HashMap keyed by peer address) never gains an entry by a datagram *)
+Theorem c10_disp_raw_step_connecting_size : forall s pushes addr bs s' e,
+  d_inv s -> rstep s (RopRaw pushes addr bs) = Some (s', e) ->
+  (length (d_connecting s') <= length (d_connecting s))%nat.
+Proof. exact raw_step_connecting_size. Qed.
+
+Print Assumptions c10_disp_raw_step_connecting_size.
+
+(* the extracted predicate c10_disp_step_ok is not vacuous: observations it rejects *)
+Theorem c10_disp_step_ok_rejects :
+  let two := [(k551, true); (k661, true)] in
+  let mk pre rsts fwd post := {| so_pre := pre; so_rsts := rsts; so_fwd := fwd; so_post := post |} in
+  c10_disp_step_ok 5 (Some m_data51) (mk (obs0 two []) 0 [k551] (obs0 two [])) = true /\
+  c10_disp_step_ok 5 (Some m_data51) (mk (obs0 two []) 0 [k661] (obs0 two [])) = false /\
+  c10_disp_step_ok 5 None (mk (obs0 two []) 0 [k551] (obs0 two [])) = false /\
+  c10_disp_step_ok 5 (Some m_data51) (mk (obs0 two []) 0 [k551] (obs0 [(k551, true)] [])) = false /\
+  c10_disp_step_ok 5 (Some m_data51) (mk (obs0 two []) 0 [k551] (obs0 [(k551, true); (k661, false)] [])) = false /\
+  c10_disp_step_ok 5 None (mk (obs0 [] []) 0 [] (obs0 [(k551, true)] [])) = false /\
+  c10_disp_step_ok 5 (Some m_syn50) (mk (obs0 [] []) 0 [] (obs0 [(k661, true)] [])) = false /\
+  c10_disp_step_ok 5 (Some m_syn50) (mk (obs0 [] []) 0 [] (obs0 [(k551, true)] [])) = true /\
+  c10_disp_step_ok 5 (Some m_data51) (mk (obs0 [] []) 0 [] (obs0 [] [hk_syn_of 5 m_data51])) = false /\
+  c10_disp_step_ok 5 (Some m_syn50) (mk (obs0 [] []) 0 [] (obs0 [] [hk_syn_of 6 m_syn50])) = false /\
+  c10_disp_step_ok 5 (Some m_data51) (mk (obs0 [] []) 1 [] (obs0 [] [])) = false /\
+  c10_disp_step_ok 5 (Some m_syn50) (mk (obs0 [] []) 2 [] (obs0 [] [])) = false.
+Proof. exact step_ok_rejects. Qed.
+
+Print Assumptions c10_disp_step_ok_rejects.
